@@ -209,8 +209,8 @@ def run(ck, facts, tier):
     ac = need_body(ck, facts, R, AU + "::aggregate_consts")
     mc = need_body(ck, facts, R, MI + "::aggregate_consts")
     if ac and mc:
-        acm = pair_match(ac.thir, "chalk_ir::ConstValue")
-        mcm = pair_match(mc.thir, "chalk_ir::ConstValue")
+        acm = pair_match(facts.thir(ac.key), "chalk_ir::ConstValue")
+        mcm = pair_match(facts.thir(mc.key), "chalk_ir::ConstValue")
         if len(acm) == 1 and len(mcm) == 1:
             cv = facts.variants("chalk_ir::ConstValue")
             for a in cv:
